@@ -1,9 +1,9 @@
 package harness
 
 import (
+	"fmt"
 	"os"
 	"strings"
-	"fmt"
 	"testing"
 	"time"
 
@@ -75,7 +75,9 @@ func execC04(s *c04Scenario, c *ev.Ctx) {
 	b := build(s.World, c)
 	w := b.W
 	claimIdx := map[string]int{}
-	w.Provider.Choose = func(nc *v1.NodeClaim, opts []sim.LaunchOption) int { return s.Choices[claimIdx[nc.Name]%len(s.Choices)] }
+	w.Provider.Choose = func(nc *v1.NodeClaim, opts []sim.LaunchOption) int {
+		return s.Choices[claimIdx[nc.Name]%len(s.Choices)]
+	}
 
 	// ---- pass 1 ----
 	res1, err := b.Provisioner.Schedule(w.Ctx)
